@@ -1,6 +1,62 @@
 import EupsModel.Drv.Util
+import EupsModel.Drv.C13
+import EupsModel.Model.Remove
 namespace EupsModel.Drv.C14
-open Lean EupsModel EupsModel.Drv
-/-- placeholder until the C14 model exists -/
-def handle : Handler := fun _ => throw "model C14 not built"
+open Lean EupsModel EupsModel.Drv EupsModel.Deps EupsModel.Remove
+
+def stateOfJson (g : Json) : Except String State := do
+  let db ← C13.dbOfJson g
+  let mut tags : List (Str × Str × Str) := []
+  let mut dirs : List (Str × Str) := []
+  for p in (← jarr g "products") do
+    let n ← jstr p "name"
+    let v ← jstr p "version"
+    dirs := dirs ++ [(n, v)]
+    match p.getObjVal? "tags" with
+    | .ok t => for x in (← t.getArr?).toList do tags := tags ++ [(n, Str.ofString (← x.getStr?), v)]
+    | .error _ => pure ()
+  pure { decls := db.decls, tags := tags, dirs := dirs }
+
+def outcomeName : Remove.Outcome → String
+  | .ok => "ok"
+  | .failed .refused => "Refused"
+  | .failed .notFound => "NotFound"
+  | .failed .cycle => "Cycle"
+  | .failed .outOfFuel => "Recursion"
+  | .failed .tableError => "TableError"
+  | .failed .isSetup => "IsSetup"
+  | .failed .noPermission => "NoPermission"
+
+def pairJson (p : Str × Str) : Json := Json.arr #[ofStr p.1, ofStr p.2]
+
+def stateToJson (s : State) : List (String × Json) :=
+  [("decl", Json.arr (s.decls.map fun d => pairJson (d.name, d.ver)).toArray),
+   ("tags", Json.arr (s.tags.map fun t => Json.arr #[ofStr t.1, ofStr t.2.1, ofStr t.2.2]).toArray),
+   ("dirs", Json.arr (s.dirs.map pairJson).toArray)]
+
+/-- `{"m":"c14","graph":G,"default":name|null,"cases":[[name,version,recursive,check,force,[[n,v]..],readOnlyDb]..]}` →
+for every case the outcome, the state afterwards and the products removed (each case starts from G). -/
+def handle : Handler := fun j => do
+  let s ← stateOfJson (← j.getObjVal? "graph")
+  let dflt ← jstrOpt j "default"
+  let cases ← jarr j "cases"
+  let needUses ← cases.anyM fun c => do
+    match (← c.getArr?).toList with
+    | [_, _, _, chk, _, _, _] => chk.getBool?
+    | _ => throw "expected [name, version, recursive, check, force, set-up products, read-only database]"
+  let uses : UsesOutcome := if needUses then usesInfo s.db s.db.fuel else .ok []
+  let outs ← cases.mapM fun c => do
+    match (← c.getArr?).toList with
+    | [n, v, r, chk, f, su, ro] =>
+      let setup ← (← su.getArr?).toList.mapM fun x => do
+        match (← x.getArr?).toList with
+        | [a, b] => pure (Str.ofString (← a.getStr?), Str.ofString (← b.getStr?))
+        | _ => throw "expected [name, version] in the set-up list"
+      let (o, s', rm) := removeWith { s with setup := setup, dbWritable := !(← ro.getBool?) } uses (Str.ofString (← n.getStr?)) (Str.ofString (← v.getStr?))
+        (← r.getBool?) (← chk.getBool?) (← f.getBool?) dflt
+      pure (Json.mkObj ([("out", Json.str (outcomeName o)),
+        ("removed", Json.arr (rm.map fun p => Json.arr #[ofStr p.name, ofStrOpt p.ver]).toArray)] ++ stateToJson s'))
+    | _ => throw "expected [name, version, recursive, check, force, set-up products, read-only database]"
+  pure (Json.mkObj [("answers", Json.arr outs.toArray)])
+
 end EupsModel.Drv.C14
